@@ -255,6 +255,7 @@ class Check:
         self.assumptions = []
         self.notes = []
         self.drift = []
+        self.canary_failed = []   # a canary that is not rejected is a tool error unless real violations were found
 
     @property
     def quick(self):
@@ -338,7 +339,11 @@ class Check:
             self.pid, self.tier, cov["states"], cov["transitions"], cov["traces_validated_against_impl"],
             cov["evaluations"], len(self.violations), len(self.known_hit), time.time() - self.t0))
         shutil.rmtree(self.work, ignore_errors=True)
-        return 1 if self.violations else 0
+        if self.violations:
+            return 1
+        if self.canary_failed:
+            raise ToolError("; ".join(self.canary_failed))
+        return 0
 
 
 def read_ndjson(path):
@@ -415,7 +420,7 @@ def canary_replay(chk, cmd, case, what):
         f.write(json.dumps(case, ensure_ascii=False) + "\n")
     p = vh(cmd, stdin_path=can)
     if b'"bad":true' not in p.stdout:
-        raise ToolError("canary (%s) not rejected by the comparator" % what)
+        chk.canary_failed.append("canary (%s) not rejected by the comparator" % what)
 
 
 def canary_trace(chk, module, cfg, good_row, bad_row, what, env=None):
@@ -424,4 +429,4 @@ def canary_trace(chk, module, cfg, good_row, bad_row, what, env=None):
     bad = trace_validate(chk, module, cfg, can, 2, timeout=600, xmx="2g", env=env)
     flat = [b[0] if isinstance(b, list) else b for b in bad]
     if flat != [2]:
-        raise ToolError("canary (%s): expected exactly line 2 rejected, got %s" % (what, bad))
+        chk.canary_failed.append("canary (%s): expected exactly line 2 rejected, got %s" % (what, bad))
